@@ -241,7 +241,6 @@ class TokenParser(Parser):
             for name in names:
                 self.cstruct.add_type(name, st)
 
-        tokens.reset_flags()
         return st
 
     def _lookup(self, tokens: TokenConsumer) -> None:
@@ -377,8 +376,11 @@ class TokenParser(Parser):
                 self._constant(tokens)
             elif token == self.TOK.TYPEDEF:
                 self._typedef(tokens)
+                # Flags such as #[nocompile] apply to one whole top-level definition, including its nested structures
+                tokens.reset_flags()
             elif token == self.TOK.STRUCT:
                 self._struct(tokens, register=True)
+                tokens.reset_flags()
             elif token == self.TOK.ENUM:
                 self._enum(tokens)
             elif token == self.TOK.LOOKUP:
